@@ -6,6 +6,8 @@ pub mod c01;
 pub mod c02;
 #[cfg(feature = "sched")]
 pub mod c14;
+#[cfg(feature = "sched")]
+pub mod c15;
 
 pub fn run(id: &str, o: &Opts, stats: &mut Stats) -> Option<usize> {
     match id {
@@ -13,6 +15,8 @@ pub fn run(id: &str, o: &Opts, stats: &mut Stats) -> Option<usize> {
         "C02" => c02::run(o, stats),
         #[cfg(feature = "sched")]
         "C14" => c14::run(o, stats),
+        #[cfg(feature = "sched")]
+        "C15" => c15::run(o, stats),
         _ => {
             eprintln!("unknown property {}", id);
             std::process::exit(2)
